@@ -54,6 +54,11 @@ MUTANTS = [
  ("lyyx-swapped", "toasty/pyramid.py", "            d, \"{}_{}.{}\".format(iy, ix, format or self._default_format)", "            d, \"{}_{}.{}\".format(ix, iy, format or self._default_format)", ["C17"], []),
  ("tile-levels-off", "toasty/study.py", "        imgset.tile_levels = self._tile_levels\n", "        imgset.tile_levels = self._tile_levels + 1\n", ["C17"], []),
  ("filetype-no-dot", "toasty/builder.py", "        self.imgset.file_type = \".\" + pio.get_default_format()\n        self.imgset.url = pio.get_path_scheme() + self.imgset.file_type\n\n        self.place = Place()", "        self.imgset.file_type = \".\" + pio.get_default_format()\n        self.imgset.url = pio.get_path_scheme() + \".png\"\n\n        self.place = Place()", ["C17"], []),
+ ("rgba-valid-threshold", "toasty/image.py", "            valid = sub_i[..., 3] != 0\n            valid = np.broadcast_to(valid[..., None], sub_i.shape)\n            np.putmask(sub_b, valid, sub_i)", "            valid = sub_i[..., 3] > 2\n            valid = np.broadcast_to(valid[..., None], sub_i.shape)\n            np.putmask(sub_b, valid, sub_i)", ["C15"], []),
+ ("int-update-minimum", "toasty/image.py", "            np.maximum(sub_b, sub_i, out=sub_b)", "            np.copyto(sub_b, sub_i)", ["C15"], []),
+ ("fill-no-clear-float", "toasty/image.py", "            b.fill(np.nan)\n            b[by_idx, bx_idx] = i[iy_idx, ix_idx]", "            b[by_idx, bx_idx] = i[iy_idx, ix_idx]", ["C15"], []),
+ ("masked-default-not-cleared", "toasty/pyramid.py", "                buf = masked_mode.make_maskable_buffer(256, 256)\n                buf.clear()", "                buf = masked_mode.make_maskable_buffer(256, 256)\n                buf.asarray().fill(0)", ["C15"], []),
+ ("completely-masked-any", "toasty/image.py", "            return np.all(i[..., 3] == 0)", "            return np.all(i[..., 3] < 2)", ["C15"], []),
  ("lxy-swapped", "toasty/pyramid.py", "            \"L{}X{}Y{}.{}\".format(level, ix, iy, format or self._default_format),", "            \"L{}X{}Y{}.{}\".format(level, iy, ix, format or self._default_format),", ["C17"], ["C02"]),
  ("sampler-flip-always", "toasty/toast.py", "        if self._invert_into_tiles:\n            sampled_data = sampled_data[::-1]", "        if True:\n            sampled_data = sampled_data[::-1]", ["C06"], []),
  ("sampler-level0-quadrants-swapped", "toasty/toast.py", "        y_idx = slice(128 * tile.pos.y, 128 * (tile.pos.y + 1))\n        x_idx = slice(128 * tile.pos.x, 128 * (tile.pos.x + 1))", "        y_idx = slice(128 * tile.pos.x, 128 * (tile.pos.x + 1))\n        x_idx = slice(128 * tile.pos.y, 128 * (tile.pos.y + 1))", ["C06"], []),
